@@ -563,6 +563,8 @@ func TestC01E2E(t *testing.T) {
 				c.Histories = append(c.Histories, genRobust(t, proto, envs, false))
 			}
 		}
+		c.Mirror = rapid.SampledFrom([]string{"", "v4", "v6", "v6"}).Draw(t, "mirror")
+		c.Ambient = genAmbient(t)
 		return c
 	})
 	n := e2eCases(1)
